@@ -532,6 +532,7 @@ def forced_op(rng, run, serial, what):
 def gen_history(ctx, stream="main"):
     rng = ctx.rng
     cfg = G.Cfg(p_reject=0.2, p_unsafe=1.0, w_phase=0.18, p_mux=0.5, p_weird=0.0)
+    cfg.p_wrong_form = 0.1
     init = G.gen_init(rng, cfg)
     extras(rng, init["comp"])
     run = Run16(init)
